@@ -474,6 +474,43 @@ def r03_9(ctx):
     statement_operand_kind_independence(ctx)
 
 
+def init_a_cast_kind_independence(ctx):
+    """a conversion wraps its operand, whatever kind of operand it is: init_a_cast never re-types the operand itself (an immediate, a
+    variable, a register is one object for all its uses - changing its type changes every other use)"""
+    idx = get_index(ctx.env)
+    classes = sorted(c for c in set(idx.subclasses("Pure")) | set(idx.subclasses("Hybrid")) if c in idx.classes)
+    ctx.need(len(classes) >= 15, f"value classes: only {len(classes)} found")
+    differing = []
+    base = None
+    for c in ["Pure"] + classes:
+        for (ts, tw), (ss, sw) in (((False, 32), (True, 32)), ((True, 64), (True, 32)), ((False, 8), (False, 32))):
+            r = Runner(idx, keep_real=("init_a_cast",))
+            box = {}
+
+            def args(c=c, ts=ts, tw=tw, ss=ss, sw=sw):
+                T = vt_case("T", ts, tw)
+                vt = vt_case("tx", ss, sw)
+                x = r.pure("x", vt=vt, cls=c)
+                box["x"], box["vt"] = x, vt
+                return [T, x]
+            fi, outs = r.run("init_a_cast", args, args_list=True)
+            res = set()
+            for o in outs:
+                if o.kind == "raise":
+                    res.add("RAISE")
+                    continue
+                v = o.value
+                res.add((v.cls if isinstance(v, AObj) else type(v).__name__, v is box["x"], box["x"].fields.get("value_type") is box["vt"]))
+            key = ((ts, tw), (ss, sw))
+            if c == "Pure":
+                base = base or {}
+                base[key] = res
+            elif res != base.get(key):
+                differing.append(f"{c} {'s' if ss else 'u'}{sw}->{'s' if ts else 'u'}{tw}: {sorted(map(str, res))[:1]}")
+    ctx.check("init_a_cast wraps every kind of operand alike and leaves the operand's own type alone", not differing and base and all(all(t == ("Cast", False, True) for t in v if t != "RAISE") for v in base.values()),
+              "a new Cast node around the operand; operand.value_type untouched", "; ".join(differing[:3]) or str({str(k): sorted(map(str, v)) for k, v in (base or {}).items()})[:160], fn_where(idx, fi))
+
+
 @rule("R03.10", "C03", "the types conversions start from and end in are the declared ones: C type names denote sign and width by their spelling; nodes that yield a truth value are typed as one", min_instances=20)
 def r03_10(ctx):
     from .c08 import c_type_table
@@ -483,6 +520,7 @@ def r03_10(ctx):
     bool_node_classes_declare_bool(ctx)
     from .c07 import r07_5
 
+    init_a_cast_kind_independence(ctx)
     r07_5(ctx)  # immediates: sign by the letter class (#r / #s signed in both cases of the letter, the others unsigned)
     # a memory load yields a value of the ACCESS type (mem_load_s16 is a signed 16 bit value): widening it extends by that sign
     idx = get_index(ctx.env)
